@@ -41,6 +41,11 @@ void Circuit::addNet(const std::vector<int> &cells,
     throw std::runtime_error("Inconsistent number of pins for the net");
   }
   checkNotInUse();
+  for (int c : cells) {
+    if (c < 0 || c >= nbCells()) {
+      throw std::runtime_error("Net pin refers to a cell that does not exist");
+    }
+  }
   if (cells.empty()) {
     return;
   }
@@ -63,6 +68,11 @@ void Circuit::setNets(const std::vector<int> &limits,
   assert(limits.back() == (int)xOffsets.size());
   assert(limits.back() == (int)yOffsets.size());
   assert(limits.size() == weights.size() + 1 || weights.empty());
+  for (int c : cells) {
+    if (c < 0 || c >= nbCells()) {
+      throw std::runtime_error("Net pin refers to a cell that does not exist");
+    }
+  }
   netLimits_ = limits;
   pinCells_ = cells;
   pinXOffsets_ = xOffsets;
